@@ -11,3 +11,8 @@ import NimaVerif.Props.C01
 #print axioms Nima.C01.trailing_open_ends_with_comment
 #print axioms Nima.C01.trailing_closed_otherwise
 #print axioms Nima.C01.cex_trailing_comment_left_open
+#print axioms Nima.C01.frag_output_is_pieces
+#print axioms Nima.C01.frag_parse_total
+#print axioms Nima.C01.frag_tokens_preserved
+#print axioms Nima.C01.frag_pieces_solid
+#print axioms Nima.C01.frag_name_check_is_splitter
